@@ -1,6 +1,7 @@
 //! Verification harness for avra-rs: executes the real library on inputs chosen by /verif/check
 //! and prints canonical observations.  Never linked into the repository itself.
 mod hexw;
+mod tables;
 mod util;
 
 fn main() {
@@ -13,6 +14,7 @@ fn main() {
     std::panic::set_hook(Box::new(|_| {}));
     let rc = match args[1].as_str() {
         "hex" => hexw::main(&args[2..]),
+        "devices" => tables::devices(),
         other => {
             eprintln!("unknown command {}", other);
             2
